@@ -5,9 +5,9 @@
 # and reports whether a VIOLATION was raised.
 cd "$(dirname "$0")/.."
 export GOFLAGS=-mod=mod GOPROXY=off GOSUMDB=off GOTOOLCHAIN=local
-seeds=("$@"); [ ${#seeds[@]} -eq 0 ] && seeds=($(ls seeded | grep -v '\.md$'))
+SD="${SEED_DIR:-seeded}"; seeds=("$@"); [ ${#seeds[@]} -eq 0 ] && seeds=($(ls $SD | grep -v '\.md$'))
 for s in "${seeds[@]}"; do
-  d=seeded/$s; [ -f $d/patch.diff ] || continue
+  d=$SD/$s; [ -f $d/patch.diff ] || continue
   prop=$(python3 -c "import json;print(json.load(open('$d/meta.json'))['property'])")
   props="$prop $(python3 -c "import json;print(' '.join(json.load(open('$d/meta.json')).get('also',[])))")"
   r=/var/tmp/seedrun.$$; rm -rf $r; cp -r /repo $r; git -C $r update-index -q --refresh
